@@ -12,6 +12,7 @@ def RLocal (p : Trace) (e : Ev) (o : List Out) : Prop :=
   | .send => ∃ r c, o = [.sent r c] ∧ outcomes r (outs p) = 0 ∧
       ∀ r' k', Out.sent r' k' ∈ outs p → r' ≠ r ∧ k' ≠ c
   | .burn => o = []
+  | .msg _ _ _ => o = []
   | .recv k v => ∀ x, x ∈ o → x = .drop k v ∨
       ∃ r c w, x = .deliver r (some c) w ∧ Out.sent r c ∈ outs p ∧ outcomes r (outs p) = 0 ∧
         (Ev.recv (some c) w ∈ p.map Prod.fst ∨ (k = some c ∧ w = v))
@@ -388,6 +389,16 @@ theorem rinv_step (s : RState) (past : Trace) (e : Ev) (h : RInv s past) :
       omega
   | burn =>
     have hst : rstep s .burn = (s, []) := rfl
+    rw [hst]
+    obtain ⟨hent, hsnt, hinq, hnd, huniq, hfresh, honce, hnf⟩ := hcore
+    refine ⟨⟨?_, by simpa using hsnt, hinq, hnd, by simpa using huniq, by simpa using hfresh,
+      by simpa using honce, by simpa using hnf⟩, good_snoc hgood rfl⟩
+    intro c e hc
+    obtain ⟨h1, h2, h3⟩ := hent c e hc
+    refine ⟨by simpa using h1, by simpa using h2, ?_⟩
+    intro w hw; simp only [List.map_append]; exact List.mem_append_left _ (h3 w hw)
+  | msg kd k v =>
+    have hst : rstep s (.msg kd k v) = (s, []) := rfl
     rw [hst]
     obtain ⟨hent, hsnt, hinq, hnd, huniq, hfresh, honce, hnf⟩ := hcore
     refine ⟨⟨?_, by simpa using hsnt, hinq, hnd, by simpa using huniq, by simpa using hfresh,
